@@ -54,7 +54,13 @@ class Registry:
         self = reg
         rel, qual = key.split(':')
         s = dict(kw)
+        frag = None
+        if '#' in qual:
+            # 'Class.method#label' : a fragment of the method (see `fragment=`)
+            qual, frag = qual.split('#', 1)
         s['key'], s['file'], s['qualname'] = key, rel, qual
+        if frag:
+            s.setdefault('short', '%s#%s' % (qual, frag))
         s.setdefault('short', qual)
         s.setdefault('params', {})
         s.setdefault('requires', [])
